@@ -439,7 +439,10 @@ const XMLCh* DOMNodeImpl::lookupPrefix(const XMLCh* namespaceURI) const {
         return lookupPrefix(namespaceURI, (DOMElement*)thisNode);
     }
     case DOMNode::DOCUMENT_NODE:{
-        return ((DOMDocument*)thisNode)->getDocumentElement()->lookupPrefix(namespaceURI);
+        DOMElement* docElem = ((DOMDocument*)thisNode)->getDocumentElement();
+        if (docElem == 0)
+            return 0;
+        return docElem->lookupPrefix(namespaceURI);
     }
 
     case DOMNode::ENTITY_NODE :
@@ -577,7 +580,10 @@ const XMLCh* DOMNodeImpl::lookupNamespaceURI(const XMLCh* specifiedPrefix) const
         return 0;
     }
     case DOMNode::DOCUMENT_NODE : {
-        return((DOMDocument*)thisNode)->getDocumentElement()->lookupNamespaceURI(specifiedPrefix);
+        DOMElement* docElem = ((DOMDocument*)thisNode)->getDocumentElement();
+        if (docElem == 0)
+            return 0;
+        return docElem->lookupNamespaceURI(specifiedPrefix);
     }
     case DOMNode::ENTITY_NODE :
     case DOMNode::NOTATION_NODE:
@@ -1002,7 +1008,10 @@ bool DOMNodeImpl::isDefaultNamespace(const XMLCh* namespaceURI) const {
         return false;
     }
     case DOMNode::DOCUMENT_NODE:{
-        return ((DOMDocument*)thisNode)->getDocumentElement()->isDefaultNamespace(namespaceURI);
+        DOMElement* docElem = ((DOMDocument*)thisNode)->getDocumentElement();
+        if (docElem == 0)
+            return false;
+        return docElem->isDefaultNamespace(namespaceURI);
     }
 
     case DOMNode::ENTITY_NODE :
